@@ -51,7 +51,7 @@ def gen_case(rng, tier):
         sparse = rng.random() < 0.4
         init = stoch(rng, 1, K, sparse and K > 1)[0]
         trans = stoch(rng, K, K, sparse)
-        emis = stoch(rng, K, M, False)
+        emis = stoch(rng, K, M, rng.random() < 0.3)  # a symbol some state never emits
         # observations with positive probability
         obs = [rng.randrange(M) for _ in range(T)]
         return {"kind": kind, "K": K, "M": M, "T": T, "init": init, "trans": trans, "emis": emis, "obs": obs,
